@@ -29,7 +29,9 @@ RULE = ('Hypothesis-generated world descriptions: 0-4 processors and 0-5 entitie
         'interpretation of the description (processor types in order after the defaults, entities by id or '
         'unique tag, constructor arguments equal / references identical, dispatching disabled and no callback '
         'on return, after enabling on_add then on_world_load once per handler component with the real entity, '
-        'world and handle). Non-trivial = >= 2 entities and references of >= 2 kinds, or a world handle stored '
+        'world and handle). '
+        'In ~9% of the cases the entities are repeated up to 64-260 (big worlds). '
+        'Non-trivial = >= 2 entities and references of >= 2 kinds, or a world handle stored '
         'at depth >= 2 that uses $res/$handle. Distinct = sha1 of canonical JSON.')
 ASSUMPTIONS = [
     'marker-prefixed strings with trailing text and marker strings nested inside containers are not generated '
